@@ -237,8 +237,9 @@ Theorem protocol_table : forall encode k eb b oe buf0,
       | OReturns x =>
           match fficallback_full encode k x with
           | FOk w' => buf s = overwrite errbuf w' /\ printed s = 0%nat      (* onerror's value *)
-          | FFail partial => buf s = overwrite errbuf partial /\ printed s = 2%nat
-                                                 (* both reported; a failed conversion may have zeroed the result *)
+          | FFail partial =>                    (* both reported; the error value is put back *)
+              buf s = (if Nat.ltb 0 (rsize k) then overwrite (overwrite errbuf partial) eb else overwrite errbuf partial)
+              /\ printed s = 2%nat
           end
       end
   end.
@@ -278,7 +279,8 @@ Qed.
 
 Theorem error_value_received : forall encode k error eb b oe buf0,
   rawerr encode k error = Some eb -> (0 < rsize k)%nat ->
-  body_value encode k b = None -> (oe = ONone \/ oe = OReturnsNone \/ oe = ORaises) ->
+  body_value encode k b = None ->
+  (oe = ONone \/ oe = OReturnsNone \/ oe = ORaises \/ exists x, oe = OReturns x /\ fficallback encode k x = None) ->
   c_receives k (invoke encode k eb b oe buf0) = firstn (rsize k) eb /\
   length eb = Nat.max (rsize k) FFI_ARG.
 Proof.
@@ -294,35 +296,10 @@ Proof.
   pose proof (protocol_table encode k eb b oe buf0) as T. cbn zeta in T. rewrite HB in T.
   assert (Hlt : Nat.ltb 0 (rsize k) = true) by (apply Nat.ltb_lt; exact Hs). rewrite Hlt in T.
   unfold c_receives.
-  destruct Hoe as [-> | [-> | ->]]; destruct T as [T _]; rewrite T; apply firstn_overwrite; lia.
-Qed.
-
-(* an onerror handler that returns an unconvertible value: the declared error value survives in every case
-   except the zero-extending kinds in the libffi convention, where the failed conversion has already zeroed
-   the result *)
-Theorem onerror_bad_value_keeps_error : forall encode k eb b x buf0 partial,
-  body_value encode k b = None -> fficallback_full encode k x = FFail partial ->
-  (encode = false \/ (forall s, k <> RZeroExt s)) ->
-  buf (invoke encode k eb b (OReturns x) buf0) = (if Nat.ltb 0 (rsize k) then overwrite buf0 eb else buf0).
-Proof.
-  intros encode k eb b x buf0 partial HB HF HK.
-  pose proof (protocol_table encode k eb b (OReturns x) buf0) as T. cbn zeta in T. rewrite HB, HF in T.
-  destruct T as [T _]. rewrite T.
-  assert (partial = []).
-  { destruct k as [| s | s | s]; unfold fficallback_full in HF.
-    - destruct x; congruence.
-    - destruct x; try congruence. destruct (in_range (RSigned s) z); [destruct (_ && _); discriminate | congruence].
-    - destruct HK as [-> | HK]; [| exfalso; apply (HK s); reflexivity].
-      rewrite andb_false_r in HF. destruct x; try congruence. destruct (in_range (RZeroExt s) z); [discriminate | congruence].
-    - destruct x; try congruence. destruct (Nat.eqb (length bs) s); [discriminate | congruence]. }
-  subst partial. unfold overwrite. cbn. reflexivity.
-Qed.
-
-Theorem onerror_bad_value_refuted :
-  exists k eb b x buf0, rawerr true k (Some (RetInt 1)) = Some eb /\ body_value true k b = None /\
-    fficallback true k x = None /\
-    c_receives k (invoke true k eb b (OReturns x) buf0) <> firstn (rsize k) eb.
-Proof.
-  exists (RZeroExt 4), [1; 0; 0; 0; 0; 0; 0; 0], BRaises, RetBad, (repeat 9 8).
-  repeat split; try reflexivity. vm_compute. discriminate.
+  destruct Hoe as [-> | [-> | [-> | [x [-> HX]]]]].
+  - destruct T as [T _]; rewrite T; apply firstn_overwrite; lia.
+  - destruct T as [T _]; rewrite T; apply firstn_overwrite; lia.
+  - destruct T as [T _]; rewrite T; apply firstn_overwrite; lia.
+  - unfold fficallback in HX. destruct (fficallback_full encode k x) as [w | partial]; [discriminate |].
+    destruct T as [T _]; rewrite T; apply firstn_overwrite; lia.
 Qed.
